@@ -142,6 +142,91 @@ func runFnCase(c *Ctx, m string, name string, args []*variants.Variant) {
 			return
 		}
 	}
+	// a successful call returns the fixed result type of the function (Null arguments may propagate as Null)
+	if strings.HasPrefix(impl, "ok") && res != nil && res.Type() != variants.Null {
+		// the table of Props/C08.lean (C08_result_type_table) plus what the model leaves to the host
+		fixed := map[string]variants.VariantType{"Ticks": variants.Long, "Now": variants.DateTime, "Date": variants.DateTime, "TimeSpan": variants.TimeSpan, "DayOfWeek": variants.Integer,
+			"E": variants.Float, "Pi": variants.Float, "Rnd": variants.Float, "Random": variants.Float, "Acos": variants.Double, "Asin": variants.Double, "Atan": variants.Double,
+			"Exp": variants.Double, "Log": variants.Double, "Ln": variants.Double, "Log10": variants.Double, "Ceil": variants.Double, "Ceiling": variants.Double, "Floor": variants.Double,
+			"Round": variants.Double, "Trunc": variants.Long, "Truncate": variants.Long, "Cos": variants.Double, "Sin": variants.Double, "Tan": variants.Double, "Sqr": variants.Double,
+			"Sqrt": variants.Double, "Empty": variants.Boolean, "Contains": variants.Boolean, "Array": variants.Array}
+		if want, ok := fixed[canon]; ok && res.Type() != want {
+			c.fail(Failure{Kind: "oracle", Op: op, Impl: impl, Note: fmt.Sprintf("%s must return a value of type %d, it returned type %d", canon, want, res.Type())})
+			return
+		}
+	}
+	// construction and string functions on plain integer / string arguments: what their names denote, spelled independently
+	if strings.HasPrefix(impl, "ok") && res != nil {
+		allInt, allStr := len(args) > 0, len(args) > 0
+		var iv []int64
+		for _, a := range args {
+			switch a.Type() {
+			case variants.Integer:
+				iv = append(iv, int64(a.AsInteger()))
+				allStr = false
+			case variants.String:
+				allInt = false
+			default:
+				allInt, allStr = false, false
+			}
+		}
+		small := true
+		for _, v := range iv {
+			if v < -100000 || v > 100000 {
+				small = false
+			}
+		}
+		bad := ""
+		switch {
+		case canon == "TimeSpan" && allInt && small && res.Type() == variants.TimeSpan:
+			var want time.Duration
+			units := []time.Duration{24 * time.Hour, time.Hour, time.Minute, time.Second, time.Millisecond}
+			if len(iv) == 1 {
+				want = time.Duration(iv[0]) * time.Millisecond
+			} else {
+				for i, v := range iv {
+					want += time.Duration(v) * units[i]
+				}
+			}
+			if res.AsTimeSpan() != want {
+				bad = fmt.Sprintf("TimeSpan of %v (milliseconds, or days, hours, minutes, seconds, milliseconds) is %v, got %v", iv, want, res.AsTimeSpan())
+			}
+		case canon == "Date" && allInt && small && len(iv) >= 2 && len(iv) <= 6 && res.Type() == variants.DateTime:
+			f := append(append([]int64(nil), iv...), []int64{1, 1, 0, 0, 0}[len(iv)-1:]...)
+			if want := time.Date(int(f[0]), time.Month(f[1]), int(f[2]), int(f[3]), int(f[4]), int(f[5]), 0, time.Local); !res.AsDateTime().Equal(want) {
+				bad = fmt.Sprintf("Date of %v (year, month, day, hour, minute, second) is %v, got %v", iv, want, res.AsDateTime())
+			}
+		case canon == "Date" && allInt && len(iv) == 1 && res.Type() == variants.DateTime:
+			if want := time.Unix(iv[0], 0); !res.AsDateTime().Equal(want) {
+				bad = fmt.Sprintf("Date(%d) is the instant %d seconds after the epoch, got %v", iv[0], iv[0], res.AsDateTime())
+			}
+		case canon == "Contains" && allStr && len(args) == 2 && res.Type() == variants.Boolean:
+			if want := strings.Contains(args[0].AsString(), args[1].AsString()); res.AsBoolean() != want {
+				bad = fmt.Sprintf("Contains(%q, %q) must be %v", args[0].AsString(), args[1].AsString(), want)
+			}
+		case canon == "Array" && res.Type() == variants.Array:
+			if res.Length() != len(args) {
+				bad = fmt.Sprintf("Array of %d arguments has %d elements", len(args), res.Length())
+			} else {
+				for i, a := range args {
+					if encVariant(res.GetByIndex(i)) != encVariant(a) {
+						bad = fmt.Sprintf("Array element %d is %s, argument %d was %s", i, encVariant(res.GetByIndex(i)), i, encVariant(a))
+						break
+					}
+				}
+			}
+		case canon == "Empty" && len(args) == 1 && res.Type() == variants.Boolean:
+			// "empty" is the library's notion of a variant without a value (Variant.IsEmpty): Null - not an empty string or list
+			a := args[0]
+			if want := a.Type() == variants.Null; res.AsBoolean() != want {
+				bad = fmt.Sprintf("Empty(%s) must be %v (a variant is empty iff it holds no value)", encVariant(a), want)
+			}
+		}
+		if bad != "" {
+			c.fail(Failure{Kind: "oracle", Op: op, Impl: impl, Note: bad})
+			return
+		}
+	}
 	// clock / random: check the range here, compare symbolically with the model
 	if strings.HasPrefix(impl, "ok") {
 		switch canon {
@@ -367,6 +452,30 @@ func propC08(c *Ctx) {
 			}
 			runFnCase(c, "u", f, args)
 		}
+	}
+	for _, a := range []string{"", "a", "abc", "héllo", "日本語abc", "ABC"} {
+		for _, b := range []string{"", "a", "bc", "é", "本語", "abc", "abcd", "A"} {
+			runFnCase(c, "u", "Contains", []*variants.Variant{vStr(a), vStr(b)})
+			runFnCase(c, "s", "contains", []*variants.Variant{vStr(a), vStr(b)})
+		}
+	}
+	for _, a := range all {
+		runFnCase(c, "u", "Empty", []*variants.Variant{a})
+		runFnCase(c, "u", "Array", []*variants.Variant{a, vInt(1), a})
+	}
+	for _, tsArgs := range [][]int{{0}, {1500}, {-1}, {1, 0, 0}, {0, 1, 0}, {0, 0, 1}, {0, 0, 0, 1}, {0, 0, 0, 0, 1}, {2, 3, 4, 5, 6}, {-1, 25, 61, 61, 1001}, {1, 2, 3, 4}} {
+		var as []*variants.Variant
+		for _, v := range tsArgs {
+			as = append(as, vInt(v))
+		}
+		runFnCase(c, "u", "TimeSpan", as)
+	}
+	for _, dArgs := range [][]int{{0}, {86400}, {-1}, {2024, 2}, {2024, 2, 29}, {2023, 2, 29}, {2024, 13, 1}, {1999, 12, 31, 23}, {1999, 12, 31, 23, 59}, {1999, 12, 31, 23, 59, 60}, {1, 1, 1}, {2024, 0, 0}} {
+		var as []*variants.Variant
+		for _, v := range dArgs {
+			as = append(as, vInt(v))
+		}
+		runFnCase(c, "u", "Date", as)
 	}
 	draws := 200000000
 	if c.Thorough {
